@@ -23,11 +23,13 @@ def join (xs : List String) : String := " ".intercalate xs
 
 def adsrObs (a : Adsr) : String :=
   join [toString a.state.toNat, toString a.pa.acc, toString a.pa.inc, fb a.value, fb a.onLevel, fb a.offLevel,
-        fb a.attackTime, fb a.decayTime, fb a.sustain, fb a.releaseTime]
+        fb a.attackTime, fb a.decayTime, fb a.sustain, fb a.releaseTime,
+        -- raw stored state: output, last accumulator, roll-over flag, roll-over mask (a function of the bit count)
+        fb a.value, toString a.pa.last, toString (b2n a.pa.rolled), toString a.pa.mask]
 
 def lfoObs (l : Lfo) : String :=
   join [toString l.pa.acc, toString l.pa.inc, fb (l.get .sine), fb (l.get .triangle), fb (l.get .upSaw),
-        fb (l.get .downSaw), fb (l.get .square)]
+        fb (l.get .downSaw), fb (l.get .square), toString l.pa.last, toString (b2n l.pa.rolled), toString l.pa.mask]
 
 def quantObs (q : Quantizer) : String :=
   join [toString q.allowed, toString q.cached.note, fb q.cached.stairstep, fb q.cached.fraction]
@@ -52,6 +54,7 @@ def midiObs (m : Midi) : String :=
         fb m.vcfCutoff, fb m.vcfResonance, fb m.portamentoTime, toString (b2n m.portamentoEnabled),
         toString (b2n m.sustainEnabled), toString (b2n m.gate), toString (b2n m.risingGate),
         toString (b2n m.fallingGate), toString (b2n m.retrigger), toString (prioNat m.priority),
+        toString m.noteNum, fb m.velocity, fb m.pitchBend, toString (b2n m.gate),
         "p"] ++ (parserObs m.parser).map toString ++ ["h"] ++ m.held.map toString)
 
 def glideObs (g : Glide) : String :=
